@@ -350,6 +350,17 @@ def runOp (st : MState) (op : Json) : E (MState × Json) := do
         match pop (stepsOfJson p) (.nested sm) (if flag then none else some (.atom (.str "dflt"))) st.heap with
         | (h', .ok v) => return finish { st with heap := h' } "ok" [] (some v)
         | (h', .error e) => return finishErr { st with heap := h' } (errJ e)
+  | [.str "mget_sd", sp, k, p, vs] => do
+    -- get(path, match, default=v, store_default=True): the search and the cascade both start from the Match
+    let k ← getNatJ k
+    let (ms, _) := drain (wcx st.heap) (stepsOfJson sp st.heap).toArray src (k+1) freshIter
+    match ms[k]? with
+    | none => return finish st "nosrc" [] none
+    | some sm =>
+      let (h, v) ← decValSpec st vs
+      match getStoreDefault (stepsOfJson p) (.nested sm) v h with
+      | (h', .ok r) => return finish { st with heap := h' } "ok" [] (some r)
+      | (h', .error e) => return finishErr { st with heap := h' } (errJ e)
   | [.str "pop", p, d] => do
     let (h, dv) ← decDflt st d
     match pop (stepsOfJson p) src dv h with
